@@ -48,12 +48,24 @@ pub fn expr_into_number(expr: &tir::Expression) -> Result<i128, Error> {
     }
 }
 
+/// Converts a quantity into the unsigned 64-bit range of a ledger field,
+/// failing instead of wrapping when it does not fit.
+pub fn number_into_u64(value: i128, target: &str) -> Result<u64, Error> {
+    u64::try_from(value).map_err(|_| Error::CoerceError(value.to_string(), target.to_string()))
+}
+
+/// Same as [`number_into_u64`] for signed 64-bit ledger fields.
+pub fn number_into_i64(value: i128, target: &str) -> Result<i64, Error> {
+    i64::try_from(value).map_err(|_| Error::CoerceError(value.to_string(), target.to_string()))
+}
+
 pub fn expr_into_metadatum(
     expr: &tir::Expression,
 ) -> Result<pallas::ledger::primitives::alonzo::Metadatum, Error> {
     match expr {
         tir::Expression::Number(x) => Ok(pallas::ledger::primitives::alonzo::Metadatum::Int(
-            Int::from(*x as i64),
+            Int::try_from(*x)
+                .map_err(|_| Error::CoerceError(x.to_string(), "Metadatum int".to_string()))?,
         )),
         tir::Expression::String(x) => Ok(pallas::ledger::primitives::alonzo::Metadatum::Text(
             x.clone(),
